@@ -6,13 +6,16 @@ from pathlib import Path
 V = Path('/verif')
 kf = json.loads((V / 'known_findings.json').read_text())
 man = json.loads((V / 'MANIFEST.json').read_text())
-for P in sys.argv[1:]:
+FO = '--findings-only' in sys.argv
+for P in [a for a in sys.argv[1:] if not a.startswith('--')]:
     st = V / 'known_findings.d' / f'{P}.json'
     if st.exists():
-        new = json.loads(st.read_text())['findings']
+        new = json.loads(st.read_text()); new = new['findings'] if isinstance(new, dict) else new
         ids = {f['id'] for f in new}
         kf['findings'] = [f for f in kf['findings'] if f['id'] not in ids] + new
         st.unlink()
+    if FO:
+        print(P, 'findings merged'); continue
     rep = (V / 'agents_out' / f'{P}.md').read_text()
     low = rep.lower(); idx = max(low.find('proposed manifest'), low.find('manifest proposal'), low.find('manifest text'), low.find('manifest entry')); sec = rep[idx:] if idx >= 0 else rep[low.find('level_claimed'):]
     sec = re.sub(r'\s*\n\s*', ' ', sec)
